@@ -15,7 +15,7 @@ THEOREMS = {
     "C07": ["C07_open", "C07_index_parse", "C07_no_panic", "C07_record", "C07_bounded_index", "C07_bounded_noindex"],
     "C13": ["C13_truncation", "C13_truncated_header", "C13_inside_is_prefix", "C13_record_cut", "C13_fault", "C13_fault_open",
             "C13_short_reads"],
-    "C12": ["C12_fault_surfaces", "C12_finalize_any", "C12_retry", "C12_reachable", "C12_drop", "C12_chunking"],
+    "C12": ["C12_fault_surfaces", "C12_finalize_any", "C12_retry", "C12_failed_finalize_harmless", "C12_reachable", "C12_drop", "C12_chunking"],
     "C11": ["C11_crash_states", "C11_read_any_header", "C11_crash_prefix", "C11_torn_length_monotone"],
     "C16": ["C16_rings", "C16_vertices", "C16_closed", "C16_orientation", "C16_idempotent", "C16_multipatch",
             "C16_test_is_exact_sign", "C16_area_of_reverse", "C16_orientation_exact", "C16_idempotent_exact"],
